@@ -6,7 +6,8 @@ a freshly started interpreter that has only imported the libraries.  Contracts (
   inputs   : after every call the data frames, the formula specs (mutable list / dict specs; for shared
              Formula objects and the formulas held by shared specs a deep snapshot of every term and of
              every factor attribute: expr, eval method, kind, metadata, token) and the context dict -- including the mutable lists / dicts / arrays in it
-             that formulas hand to transforms as arguments -- equal deep copies taken before; the global
+             that formulas hand to transforms as arguments (array contents bit for bit incl. NaN positions, dtype,
+             shape, writeable flag) -- equal deep copies taken before; the global
              numpy.random / random streams are in the same state after a call as before it;
   history  : the result of call i (values bit for bit, dtypes, column order, index labels, rows the
              caller's drop set reports) equals the result of *the same call made in a fresh process*
@@ -57,9 +58,18 @@ SPECS = {
     "backtick-two-stateful": "center(`my col`) + scale(`my col`)",
     "backtick-plain+stateful": "I(`my col`**2) + center(`my col`)",
     "backtick-lookup+stateful": "`my col` + center(`a-b`) + scale(`a-b`):A",
+    # every shipped transform over writable numpy vectors (float64 / float32 / int64, one with NaNs) that the caller
+    # holds in the context
+    "ctxvec-lag": "lag(vf64) + lag(vi64) + lag(vf32, -1) + b",
+    "ctxvec-scale": "center(vf64) + scale(vf32) + standardize(vi64) + a",
+    "ctxvec-splines": "bs(vf64, df=4) + cr(vf32, df=3) + cc(vf64, df=3)",
+    "ctxvec-poly-cat": "poly(vf64, 2) + C(vi64) + hashed(vf64, levels=3) + C(vf32, contr.sum)",
+    "ctxvec-nan": "lag(vf64n) + np.log(vf64n + 1) + I(vf64n * 2) + b",
+    "ctxvec-nan-stateful": "center(vf64n) + scale(vf64n) + a",
 }
 STATEFUL = {"center", "scale:B", "poly", "bs", "many-factors", "dict-spec", "C-sum", "bs-knots-list", "cr-knots-list", "scale-center-list", "poly-array",
-            "backtick-two-stateful", "backtick-plain+stateful", "backtick-lookup+stateful"}
+            "backtick-two-stateful", "backtick-plain+stateful", "backtick-lookup+stateful",
+            "ctxvec-scale", "ctxvec-splines", "ctxvec-poly-cat", "ctxvec-nan-stateful"}
 CORE = ["a+A", "backtick-two-stateful", "bs-knots-list"]
 CORE_THOROUGH = ["a+A", "center", "poly", "dict-spec", "backtick-two-stateful", "two-sided", "bs-knots-list", "backtick-lookup+stateful"]
 DATA = ("d0", "d1", "d2")
@@ -142,6 +152,8 @@ def random_histories(rng, count):
     for _ in range(count):
         length = rng.choice([1, 2, 3, 3, 4, 4, 5, 5])
         focus = rng.sample(names, rng.choice([1, 1, 2]))  # histories revolve around one or two formulas
+        if rng.random() < 0.2:
+            focus[0] = rng.choice([n for n in names if n.startswith("ctxvec-")])
         h = []
         for i in range(length):
             builds = [j for j, o in enumerate(h) if o[0] in BUILD_KINDS]
@@ -304,7 +316,8 @@ def run_bounded(ctx):
         "context variables, two-sided / multi-part) x 4 frames (one with nulls and string index, one with other levels, one in which the text column holds numbers) x 3 outputs x "
         "builds (model_matrix, shared Formula, shared un-materialized spec), re-uses (spec.get_model_matrix, model_matrix(<earlier "
         "result>)) and joint builds of two earlier specs in one ModelSpecs; context holds mutable lists / dicts / arrays that formulas "
-        "pass to transforms (knots=, contrasts=, levels=, center=); frames have columns whose names are not identifiers ('my col', "
+        "pass to transforms (knots=, contrasts=, levels=, center=) and writable float64 / float32 / int64 numpy vectors (one with NaNs) that "
+        "every shipped transform (lag, center, scale, standardize, poly, bs, cr, cc, hashed, C, I, np.log) is applied to; frames have columns whose names are not identifiers ('my col', "
         "'a-b'; one frame also has 'my_col') used back-ticked in several stateful factors; some calls get a context that shadows the built-in `center`/`scale` with plain "
         "functions while other calls of the same history do not; histories revolve around one or two formulas; non-trivial = more than one call",
         exhaustive=False,
